@@ -42,7 +42,7 @@ def _one(d, ctx, kind, tier_all, **kw):
     if case.init.shape != case.aff_shape:
         case.init = np.broadcast_to(case.init, case.aff_shape).copy()
     sharp = False
-    if kind == 'cbmm' and case.lead == () and d.aux(51).integers(0, 3) == 0:
+    if kind == 'cbmm' and case.lead == () and d.aux(51).integers(0, 2) == 0:
         # strongly concentrated classes (60..90 dB above their own noise, each
         # class at its own level) with a hard start: class scatters that are
         # rank one up to 1e-9..1e-6 and not equal to each other
@@ -159,7 +159,7 @@ def _make(kind, quick, thorough, **kw):
 
 _make('cacgmm', 300, 5000, max_iterations=8, max_K=6, max_D=5)
 _make('cwmm', 250, 4000, max_iterations=8, max_K=6, max_D=5)
-_make('cbmm', 40, 600, max_K=3, max_D=3, max_iterations=2, max_lead=1)
+_make('cbmm', 100, 1200, max_K=3, max_D=3, max_iterations=2, max_lead=1)
 _make('gmm', 250, 4000, max_iterations=8, max_K=6, max_D=5)
 _make('vmfmm', 200, 3500, max_iterations=8, max_K=6, max_D=5)
 _make('gcacgmm', 180, 3000, max_K=4, max_D=4, max_iterations=6)
